@@ -1,6 +1,6 @@
 """check configuration for C06 (loaded by lib/zvprops.py)"""
 
-PROP = {'gen_tables': ['FrontEnds', 'TransCE', 'TransCEAdd', 'TransLogger'],
+PROP = {'gen_tables': ['FrontEnds', 'TransCE', 'TransCEAdd', 'TransLogger', 'TransGrpc'],
  'rule': 'ops: one call through a front end (every exported log method of Logger, SugaredLogger, zapgrpc.Logger incl. WithDebug, the std-log '
          'bridge; Check+Write) at DPanic/Panic/Fatal (plus lower/out-of-range levels as negative control) × 10 core compositions (nop, enabled / '
          'disabled io leaf, dropping sampler, tees, hooks, lazy, IncreaseLevel, With) × hook ∈ {nil, no-op, Goexit, Panic, Fatal, custom} × '
